@@ -32,11 +32,6 @@ impl<'a, A: ?Sized + AuthorityImpl> AuthorityMutImpl<'a, A> {
 		crate::utils::replace(self.data, range, content)
 	}
 
-	#[inline]
-	fn allocate(&mut self, range: Range<usize>, len: usize) {
-		crate::utils::allocate_range(self.data, range, len)
-	}
-
 	pub fn as_authority(&self) -> &A {
 		unsafe { A::new_unchecked(&self.data[self.start..self.end]) }
 	}
@@ -45,26 +40,29 @@ impl<'a, A: ?Sized + AuthorityImpl> AuthorityMutImpl<'a, A> {
 		unsafe { A::new_unchecked(&self.data[self.start..self.end]) }
 	}
 
+	/// Replaces the given `range` of the authority with `content`, keeping
+	/// the end offset of the authority up to date.
+	fn splice(&mut self, range: Range<usize>, content: &[u8]) {
+		let removed_len = range.end - range.start;
+		self.replace(range, content);
+		self.end = self.end + content.len() - removed_len;
+	}
+
 	#[inline]
 	pub fn set_userinfo(&mut self, userinfo: Option<&A::UserInfo>) {
 		let bytes = &self.data[..self.end];
 
 		match userinfo {
 			Some(new_userinfo) => match parse::find_user_info(bytes, self.start) {
-				Some(userinfo_range) => self.replace(userinfo_range, new_userinfo.as_bytes()),
+				Some(userinfo_range) => self.splice(userinfo_range, new_userinfo.as_bytes()),
 				None => {
-					let added_len = new_userinfo.len() + 1;
-					self.allocate(self.start..self.start, added_len);
-					self.data[self.start..(self.start + new_userinfo.len())]
-						.copy_from_slice(new_userinfo.as_bytes());
-					self.data[self.start + new_userinfo.len()] = b'@';
-					self.end += added_len
+					self.splice(self.start..self.start, b"@");
+					self.splice(self.start..self.start, new_userinfo.as_bytes());
 				}
 			},
 			None => {
 				if let Some(userinfo_range) = parse::find_user_info(bytes, self.start) {
-					self.replace(userinfo_range.start..(userinfo_range.end + 1), b"");
-					self.end -= userinfo_range.end - userinfo_range.start;
+					self.splice(userinfo_range.start..(userinfo_range.end + 1), b"");
 				}
 			}
 		}
@@ -74,15 +72,7 @@ impl<'a, A: ?Sized + AuthorityImpl> AuthorityMutImpl<'a, A> {
 	pub fn set_host(&mut self, host: &A::Host) {
 		let bytes = &self.data[..self.end];
 		let range = parse::find_host(bytes, self.start);
-		let host_len = range.end - range.start;
-
-		if host_len > host.len() {
-			self.end -= host_len - host.len()
-		} else {
-			self.end -= host.len() - host_len
-		}
-
-		self.replace(range, host.as_bytes());
+		self.splice(range, host.as_bytes());
 	}
 
 	#[inline]
@@ -90,20 +80,15 @@ impl<'a, A: ?Sized + AuthorityImpl> AuthorityMutImpl<'a, A> {
 		let bytes = &self.data[..self.end];
 		match port {
 			Some(new_port) => match parse::find_port(bytes, self.start) {
-				Some(range) => self.replace(range, new_port.as_bytes()),
+				Some(range) => self.splice(range, new_port.as_bytes()),
 				None => {
-					let added_len = new_port.len() + 1;
-					self.allocate(self.end..self.end, added_len);
-					self.data[self.end] = b':';
-					self.data[(self.end + 1)..(self.end + added_len)]
-						.copy_from_slice(new_port.as_bytes());
-					self.end += added_len;
+					self.splice(self.end..self.end, b":");
+					self.splice(self.end..self.end, new_port.as_bytes());
 				}
 			},
 			None => {
 				if let Some(port_range) = parse::find_port(bytes, self.start) {
-					self.replace((port_range.start - 1)..port_range.end, b"");
-					self.end -= port_range.end - port_range.start;
+					self.splice((port_range.start - 1)..port_range.end, b"");
 				}
 			}
 		}
